@@ -13,6 +13,7 @@ package getopt
 import (
 	"fmt"
 	"strings"
+	"unicode/utf8"
 
 	"src.elv.sh/pkg/errutil"
 )
@@ -244,13 +245,17 @@ func parseShort(s string, specs []*OptionSpec) ([]*Option, bool) {
 	var opts []*Option
 	var needArg bool
 	for i, r := range s {
+		// The rest of s after r. An invalid UTF-8 byte is decoded as U+FFFD but
+		// is only one byte wide, so len(string(r)) is not the width of r in s.
+		_, size := utf8.DecodeRuneInString(s[i:])
+		rest := s[i+size:]
 		opt := findShort(r, specs)
 		if opt != nil {
 			if opt.Arity == NoArgument {
 				opts = append(opts, &Option{Spec: opt})
 				continue
 			} else {
-				parsed := &Option{Spec: opt, Argument: s[i+len(string(r)):]}
+				parsed := &Option{Spec: opt, Argument: rest}
 				opts = append(opts, parsed)
 				needArg = parsed.Argument == "" && opt.Arity == RequiredArgument
 				break
@@ -259,7 +264,7 @@ func parseShort(s string, specs []*OptionSpec) ([]*Option, bool) {
 		// Unknown option, treat as taking an optional argument
 		parsed := &Option{
 			Spec: &OptionSpec{r, "", OptionalArgument}, Unknown: true,
-			Argument: s[i+len(string(r)):]}
+			Argument: rest}
 		opts = append(opts, parsed)
 		break
 	}
